@@ -88,7 +88,7 @@ class ModelsWorld(World):
             "p_fault": rng.choice([0.2, 0.4]) if faulty else 0.0,
             "p_short": rng.choice([0.0, 0.3, 0.6]) if faulty else rng.choice([0.0, 0.15]),
             "buffer": rng.choice([16, 256, 8192]),
-            "weights": weights,
+            "weights": weights, "p_eintr": rng.choice([0.0, 0.0, 0.2, 0.5]),
         }
 
     def __init__(self, cfg, known=None):
@@ -295,13 +295,18 @@ class ModelsWorld(World):
         names = sorted(t["params"])
         if subset and rng is not None:
             names = rng.sample(names, rng.randint(1, len(names)))
+        def one(lo, hi):
+            # an exact zero is a value like any other (a switched-off channel, a zero target) wherever the range allows it
+            if lo <= 0.0 <= hi and val.random() < (0.12 if t.get("shocks") else 0.35):
+                return 0.0
+            return round(val.uniform(lo, hi), 3)
         for n in names:
             lo, hi = t["params"][n]
             if nv > 1 and val.random() < 0.6:
                 k = nv if val.random() < 0.5 else val.randint(1, nv)
-                out[n] = [round(val.uniform(lo, hi), 3) for _ in range(k)]
+                out[n] = [one(lo, hi) for _ in range(k)]
             else:
-                out[n] = round(val.uniform(lo, hi), 3)
+                out[n] = one(lo, hi)
         return out
 
     def _gen_new(self, actor, rng, val, flt):
@@ -418,7 +423,8 @@ class ModelsWorld(World):
         elif r.cls == "seq":
             rd = {"k": rng.choice(["simulate", "getters", "view", "iterate"]), "order": rng.choice(["dates_equations", "equations_dates"]), "v": rng.randrange(3)}
         else:
-            rd = {"k": rng.choice(["moments", "view", "iterate"]), "v": rng.randrange(3)}
+            rd = {"k": rng.choice(["moments", "view", "iterate", "simulate", "simulate"]), "v": rng.randrange(3),
+                  "deviation": rng.random() < 0.5, "ant": rng.random() < 0.5}
         return {"op": "read", "args": {"h": h, "r": rd}}
 
     def _gen_spawn(self, actor, rng, val, flt):
@@ -452,6 +458,8 @@ class ModelsWorld(World):
             plan["short_write"] = flt.choice([64, 500, 3000])
         if flt.random() < cfg["p_short"]:
             plan["short_read"] = flt.choice([16, 200, 1000])
+        if flt.random() < cfg.get("p_eintr", 0.0):
+            plan["eintr"] = flt.choice([1, 2, 3, 7])      # every n-th raw read/write is interrupted once before it transfers anything
         if cfg["fault_kinds"] and flt.random() < cfg["p_fault"]:
             if reading:
                 kinds = [k for k in cfg["fault_kinds"] if k.startswith("open") or k in ("read_eio", "close_eio")]
@@ -688,6 +696,13 @@ class ModelsWorld(World):
             elif kind == "dill":
                 import dill
                 c = dill.loads(dill.dumps(m))
+            elif kind == "deepcopy":
+                c = _copy.deepcopy(m)
+            elif kind == "pickle_bytes":
+                c = pickle.loads(m.to_pickle_bytes())
+            elif kind == "dill_bytes":
+                import dill
+                c = dill.loads(m.to_dill_bytes())
             elif kind == "portable":
                 p = m.to_portable()
                 c = type(m).from_portable(json.loads(json.dumps(p)))
@@ -804,7 +819,7 @@ class ModelsWorld(World):
             if self.disk[path] == "torn":
                 self.probes["save_over_torn_file"] += 1
         status, res, fired = self._run_io(self._saver(r.real, how, path), plan)
-        faulted = any(k not in ("short_write", "short_read") for k in fired)
+        faulted = any(k not in ("short_write", "short_read", "eintr") for k in fired)
         for p, b in before.items():
             if p != path and bytes(self.fs.files.get(p, b"")) != b:
                 raise Violation("isolation", opname, pred, "", f"saving to {path} changed {p}")
@@ -855,7 +870,7 @@ class ModelsWorld(World):
         pred = rec["pred"]
         opname = "load." + rec["how"]
         status, res, fired = self._run_io(self._loader(rec, path), plan)
-        faulted = any(k not in ("short_write", "short_read") for k in fired)
+        faulted = any(k not in ("short_write", "short_read", "eintr") for k in fired)
         self._isolation(opname, pred)
         if status == "crashed":
             return "crashed"
@@ -1158,6 +1173,10 @@ def simplifiers(step):
             s = _copy.deepcopy(step)
             s["args"]["plan"]["short_write"] = None
             s["args"]["plan"]["short_read"] = None
+            yield s
+        if p.get("eintr"):
+            s = _copy.deepcopy(step)
+            s["args"]["plan"]["eintr"] = None
             yield s
     if step["op"] == "mutate" and a["m"]["k"] == "assign" and len(a["m"]["values"]) > 1:
         for n in list(a["m"]["values"]):
